@@ -19,7 +19,8 @@ ROOT = '/d/ns'
 def mk_exec(docs, cfg):
     x = Exec(Program(docs), query_timeout_ms=cfg.get('qt', 20000), seed=cfg.get('seed', 0))
     envmodel.install(x, cfg.get('rkyv_table'))
-    x.maxloop = cfg.get('maxloop', 48)
+    x.maxloop = cfg.get('maxloop', 128)
+    x.eager_div = cfg.get('eager_div', 0)
 
     # type-directed defaults the dynamically typed interpreter cannot infer
     def vec_hint(e):
